@@ -170,6 +170,17 @@ def bound_check(index, shape):
             raise IndexError(f"index {index} outside shape {shape}")
 
 
+def get_item(value, index):
+    """Item of a nested list, nplike or xobject array at a (multi-)index."""
+    if hasattr(value, "shape") or hasattr(value, "_shape"):
+        return value[index]
+    if isinstance(index, tuple):
+        for ii in index:
+            value = value[ii]
+        return value
+    return value[index]
+
+
 class Index:
     def __init__(self, cls):
         self.cls = cls
@@ -397,7 +408,9 @@ class Array(metaclass=MetaArray):
                 offsets = np.empty(shape, dtype="int64")
                 offset += items * 8
                 for idx in iter_index(shape, order):
-                    extra[idx] = cls._itemtype._inspect_args(value[idx])
+                    extra[idx] = cls._itemtype._inspect_args(
+                        get_item(value, idx)
+                    )
                     offsets[idx] = offset
                     offset += extra[idx].size
                 size = _to_slot_size(offset)
@@ -504,13 +517,11 @@ class Array(metaclass=MetaArray):
                             info.extra.get(idx),
                         )
         else:  # there is a value for initialization
-            if not hasattr(value, "shape"):  # not nplike
-                value = np.asarray(value, dtype=object)
             if cls._is_static_type:
                 ioffset = offset + cls._data_offset
                 for idx in iter_index(info.shape, cls._order):
                     cls._itemtype._to_buffer(
-                        buffer, ioffset, value[idx], info=None
+                        buffer, ioffset, get_item(value, idx), info=None
                     )
                     ioffset += cls._itemtype._size
             else:
@@ -518,7 +529,7 @@ class Array(metaclass=MetaArray):
                     cls._itemtype._to_buffer(
                         buffer,
                         offset + info.offsets[idx],
-                        value[idx],
+                        get_item(value, idx),
                         info.extra.get(idx),
                     )
 
